@@ -160,6 +160,9 @@ theorem execDB_next_benign {e : Env} {s s' : St} {k : Kind} (h : execDB e s k = 
   case readCert => cases h; exact ⟨_, call_log .., by simp [benign, Ev.harmless, Kind.tolerated]⟩
   case readData => cases h; exact ⟨_, call_log .., by simp [benign, Ev.harmless, Kind.tolerated]⟩
   case enrich =>
+    by_cases hu : e.hooksUsable = false
+    · rw [if_pos hu] at h; cases h
+    rw [if_neg hu] at h
     split at h
     · cases h; rename_i hc
       obtain ⟨t, ht, _, _, _, hb⟩ := attempt_log e s .enrich
@@ -167,6 +170,9 @@ theorem execDB_next_benign {e : Env} {s s' : St} {k : Kind} (h : execDB e s k = 
       exact ⟨t, ht, hb rfl (by rw [hc]; exact harmless_ok _)⟩
     · cases h
   case authorize =>
+    by_cases hu : e.hooksUsable = false
+    · rw [if_pos hu] at h; cases h
+    rw [if_neg hu] at h
     split at h
     · cases h; rename_i hc
       obtain ⟨t, ht, _, _, _, hb⟩ := attempt_log e s .authorize
@@ -206,6 +212,9 @@ theorem execDB_next_benign {e : Env} {s s' : St} {k : Kind} (h : execDB e s k = 
     · cases h
     · cases h
   case challenge =>
+    by_cases hu : e.hooksUsable = false
+    · rw [if_pos hu] at h; cases h
+    rw [if_neg hu] at h
     obtain ⟨t, ht, _, _, _, hb⟩ := attempt_log e s .challenge
     split at h
     · cases h; rename_i ho; exact ⟨t, ht, hb rfl (by rw [ho]; exact harmless_ok _)⟩
@@ -215,6 +224,9 @@ theorem execDB_next_benign {e : Env} {s s' : St} {k : Kind} (h : execDB e s k = 
   case arm => cases h; exact ⟨[], by simp, rfl⟩
   case withData => cases h; exact ⟨[], by simp, rfl⟩
   case notify =>
+    by_cases hu : e.hooksUsable = false
+    · rw [if_pos hu] at h; cases h; exact ⟨[], by simp, rfl⟩
+    rw [if_neg hu] at h
     obtain ⟨t, ht, _, _, _, hb⟩ := attempt_log e s .notify
     split at h
     · cases h; exact ⟨[], by simp, rfl⟩
@@ -256,15 +268,27 @@ theorem execDB_mono {e : Env} {s s' : St} {k : Kind}
     (s.d.revoked = true → s'.d.revoked = true) ∧ ∃ t, s'.log = s.log ++ t := by
   cases k <;> simp only [execDB] at h
   case enrich =>
+    by_cases hu : e.hooksUsable = false
+    · rw [if_pos hu] at h; rcases h with h | h <;> cases h <;> exact ⟨Nat.le_refl _, id, id, [], by simp⟩
+    rw [if_neg hu] at h
     obtain ⟨t, ht, hd, _, _, _⟩ := attempt_log e s .enrich
     split at h <;> rcases h with h | h <;> cases h <;> simp [webhook_eq, hd, ht]
   case authorize =>
+    by_cases hu : e.hooksUsable = false
+    · rw [if_pos hu] at h; rcases h with h | h <;> cases h <;> exact ⟨Nat.le_refl _, id, id, [], by simp⟩
+    rw [if_neg hu] at h
     obtain ⟨t, ht, hd, _, _, _⟩ := attempt_log e s .authorize
     split at h <;> rcases h with h | h <;> cases h <;> simp [webhook_eq, hd, ht]
   case challenge =>
+    by_cases hu : e.hooksUsable = false
+    · rw [if_pos hu] at h; rcases h with h | h <;> cases h <;> exact ⟨Nat.le_refl _, id, id, [], by simp⟩
+    rw [if_neg hu] at h
     obtain ⟨t, ht, hd, _, _, _⟩ := attempt_log e s .challenge
     split at h <;> rcases h with h | h <;> cases h <;> simp [hd, ht]
   case notify =>
+    by_cases hu : e.hooksUsable = false
+    · rw [if_pos hu] at h; rcases h with h | h <;> cases h <;> exact ⟨Nat.le_refl _, id, id, [], by simp⟩
+    rw [if_neg hu] at h
     obtain ⟨t, ht, hd, _, _, _⟩ := attempt_log e s .notify
     split at h <;> rcases h with h | h <;> cases h <;> simp [hd, ht]
   all_goals
@@ -309,6 +333,9 @@ theorem notify_only (e : Env) (n : Nat) (s : St) :
     obtain ⟨t, ht, hd, _, _, _⟩ := attempt_log e s .notify
     have hx : ∃ s', exec e s .notify = .next s' ∧ s'.d = s.d ∧ ∃ t, s'.log = s.log ++ t := by
       simp only [exec, Kind.isStore, Bool.false_eq_true, and_false, if_false, execDB]
+      by_cases hu : e.hooksUsable = false
+      · rw [if_pos hu]; exact ⟨_, rfl, rfl, [], by simp⟩
+      rw [if_neg hu]
       split
       · exact ⟨s, rfl, rfl, [], by simp⟩
       · exact ⟨_, rfl, hd, t, ht⟩
@@ -596,6 +623,28 @@ theorem token_spent (e e' : Env) (op : Op) (c c' : Cfg) (d : Durable)
     client op (runOp e' op c' (runOp e op c d).1.d) = .error :=
   (spent_token_refused e' op c' _ hop (token_spent_after_attempt e op c d hop h0)).1
 
+/-- **failure_persisting.** The failure may persist: the same request again under the very same
+    environment (same faults at the same positions) is refused as well once the token was
+    recorded. -/
+theorem failure_persisting (e : Env) (op : Op) (c : Cfg) (d : Durable)
+    (hop : op.usesToken = true) (h0 : e.f 0 = .ok ∨ e.f 0 = .timeout) :
+    client op (runOp e op c (runOp e op c d).1.d) = .error :=
+  token_spent e e op c c d hop h0
+
+theorem restart_keeps_database (d : Durable) : restart true d = d := rfl
+
+/-- **token_spent_across_restart.** With a database, a restart of the authority between the
+    attempts changes nothing: the recorded token is still refused, under any faults. -/
+theorem token_spent_across_restart (e e' : Env) (op : Op) (c c' : Cfg) (d : Durable)
+    (hop : op.usesToken = true) (h0 : e.f 0 = .ok ∨ e.f 0 = .timeout) :
+    client op (runOp e' op c' (restart true (runOp e op c d).1.d)) = .error := by
+  rw [restart_keeps_database]; exact token_spent e e' op c c' d hop h0
+
+/-- what a restart keeps of the other records -/
+theorem restart_keeps_records (db : Bool) (d : Durable) :
+    (restart db d).certs = d.certs ∧ (restart db d).revoked = d.revoked ∧ (restart db d).datas = d.datas := by
+  cases db <;> simp [restart]
+
 /-! ### no database configured (`db.SimpleDB`) -/
 
 /-- a step that always refuses blocks every list that contains it -/
@@ -628,6 +677,19 @@ theorem revoke_needs_db (e : Env) (op : Op) (c : Cfg) (d : Durable) (hdb : e.db 
   rw [client_eq]
   simp [client, hb]
 
+/-! ### unusable webhook definitions -/
+
+/-- A provisioner whose webhook definitions cannot be used (URL template does not parse, the
+    signing secret is not base64) refuses every request that would consult an enriching,
+    authorizing or challenge webhook — before any call goes out. -/
+theorem unusable_hooks_refuse (e : Env) (op : Op) (c : Cfg) (d : Durable) (hu : e.hooksUsable = false)
+    (k : Kind) (hk : k = .enrich ∨ k = .authorize ∨ k = .challenge) (hm : k ∈ steps op c) :
+    client op (runOp e op c d) = .error := by
+  have hb := run_blocked e k (fun s => ⟨s, by
+    rcases hk with rfl | rfl | rfl <;> simp [exec, Kind.isStore, execDB, hu]⟩) (steps op c) (init op d) hm
+  rw [client_eq]
+  simp [client, hb]
+
 /-! ### SCEP enrolment -/
 
 /-- a step changes the allow counter only by a challenge webhook that answered `ok` -/
@@ -638,6 +700,9 @@ theorem exec_allowed {e : Env} {s s' : St} {k : Kind} (h : exec e s k = .next s'
   · exact Or.inl (execMem_spec (Or.inl h)).2.2.2.1
   cases k <;> simp only [execDB] at h
   case challenge =>
+    by_cases hu : e.hooksUsable = false
+    · rw [if_pos hu] at h; cases h
+    rw [if_neg hu] at h
     obtain ⟨t, ht, _, ha, _, _⟩ := attempt_log e s .challenge
     split at h
     · cases h; rename_i ho
@@ -651,12 +716,21 @@ theorem exec_allowed {e : Env} {s s' : St} {k : Kind} (h : exec e s k = .next s'
     · cases h; exact Or.inl ha
     · cases h
   case enrich =>
+    by_cases hu : e.hooksUsable = false
+    · rw [if_pos hu] at h; cases h
+    rw [if_neg hu] at h
     obtain ⟨_, _, _, ha, _, _⟩ := attempt_log e s .enrich
     split at h <;> cases h; exact Or.inl (by simpa [webhook_eq] using ha)
   case authorize =>
+    by_cases hu : e.hooksUsable = false
+    · rw [if_pos hu] at h; cases h
+    rw [if_neg hu] at h
     obtain ⟨_, _, _, ha, _, _⟩ := attempt_log e s .authorize
     split at h <;> cases h; exact Or.inl (by simpa [webhook_eq] using ha)
   case notify =>
+    by_cases hu : e.hooksUsable = false
+    · rw [if_pos hu] at h; cases h; exact Or.inl rfl
+    rw [if_neg hu] at h
     obtain ⟨_, _, _, ha, _, _⟩ := attempt_log e s .notify
     split at h <;> cases h
     · exact Or.inl rfl
@@ -773,15 +847,27 @@ theorem acme_certificate_complete (e : Env) (c : Cfg) (d : Durable) (hdb : e.db 
       · cases k' <;> simp only [execMem] at hx <;> (try split at hx) <;> cases hx <;> simp_all [spend]
       · cases k' <;> simp only [execDB] at hx
         case enrich =>
+          by_cases hu : e.hooksUsable = false
+          · rw [if_pos hu] at hx; cases hx
+          rw [if_neg hu] at hx
           obtain ⟨_, _, hd, _, _, _⟩ := attempt_log e s .enrich
           split at hx <;> cases hx; simp only [webhook_eq]; rw [hd]; exact hp
         case authorize =>
+          by_cases hu : e.hooksUsable = false
+          · rw [if_pos hu] at hx; cases hx
+          rw [if_neg hu] at hx
           obtain ⟨_, _, hd, _, _, _⟩ := attempt_log e s .authorize
           split at hx <;> cases hx; simp only [webhook_eq]; rw [hd]; exact hp
         case challenge =>
+          by_cases hu : e.hooksUsable = false
+          · rw [if_pos hu] at hx; cases hx
+          rw [if_neg hu] at hx
           obtain ⟨_, _, hd, _, _, _⟩ := attempt_log e s .challenge
           split at hx <;> cases hx <;> (show (attempt e s .challenge).2.d.orderValid = true) <;> rw [hd] <;> exact hp
         case notify =>
+          by_cases hu : e.hooksUsable = false
+          · rw [if_pos hu] at hx; cases hx; exact hp
+          rw [if_neg hu] at hx
           obtain ⟨_, _, hd, _, _, _⟩ := attempt_log e s .notify
           split at hx <;> cases hx
           · exact hp
@@ -808,18 +894,30 @@ theorem exec_counts {e : Env} {s s' : St} {k : Kind} (hdb : e.db = true)
   simp only [exec, hdb, Bool.true_eq_false, false_and, if_false] at h
   cases k <;> simp only [execDB] at h
   case enrich =>
+    by_cases hu : e.hooksUsable = false
+    · rw [if_pos hu] at h; rcases h with h | h <;> cases h <;> first | omega | (simp; omega) | simp
+    rw [if_neg hu] at h
     obtain ⟨a, b, c⟩ := attempt_counts e s .enrich
     split at h <;> rcases h with h | h <;> cases h <;> simp only [webhook_eq] <;> rw [a, b, c] <;> omega
   case authorize =>
+    by_cases hu : e.hooksUsable = false
+    · rw [if_pos hu] at h; rcases h with h | h <;> cases h <;> first | omega | (simp; omega) | simp
+    rw [if_neg hu] at h
     obtain ⟨a, b, c⟩ := attempt_counts e s .authorize
     split at h <;> rcases h with h | h <;> cases h <;> simp only [webhook_eq] <;> rw [a, b, c] <;> omega
   case challenge =>
+    by_cases hu : e.hooksUsable = false
+    · rw [if_pos hu] at h; rcases h with h | h <;> cases h <;> first | omega | (simp; omega) | simp
+    rw [if_neg hu] at h
     obtain ⟨a, b, c⟩ := attempt_counts e s .challenge
     split at h <;> rcases h with h | h <;> cases h <;>
       (show s.d.certs + s.unstored + (attempt e s .challenge).2.made ≤
         (attempt e s .challenge).2.d.certs + (attempt e s .challenge).2.unstored + s.made ∧
         s.made ≤ (attempt e s .challenge).2.made) <;> rw [a, b, c] <;> omega
   case notify =>
+    by_cases hu : e.hooksUsable = false
+    · rw [if_pos hu] at h; rcases h with h | h <;> cases h <;> first | omega | (simp; omega) | simp
+    rw [if_neg hu] at h
     obtain ⟨a, b, c⟩ := attempt_counts e s .notify
     split at h <;> rcases h with h | h <;> cases h
     · omega
@@ -853,15 +951,27 @@ theorem exec_pending {e : Env} {s s' : St} {k : Kind} (hdb : e.db = true)
   simp only [exec, hdb, Bool.true_eq_false, false_and, if_false] at h
   cases k <;> simp only [execDB] at h
   case enrich =>
+    by_cases hu : e.hooksUsable = false
+    · rw [if_pos hu] at h; cases h
+    rw [if_neg hu] at h
     obtain ⟨_, b, _⟩ := attempt_counts e s .enrich
     split at h <;> cases h; simpa [webhook_eq, pendingStep] using b
   case authorize =>
+    by_cases hu : e.hooksUsable = false
+    · rw [if_pos hu] at h; cases h
+    rw [if_neg hu] at h
     obtain ⟨_, b, _⟩ := attempt_counts e s .authorize
     split at h <;> cases h; simpa [webhook_eq, pendingStep] using b
   case challenge =>
+    by_cases hu : e.hooksUsable = false
+    · rw [if_pos hu] at h; cases h
+    rw [if_neg hu] at h
     obtain ⟨_, b, _⟩ := attempt_counts e s .challenge
     split at h <;> cases h <;> (show (attempt e s .challenge).2.unstored = _) <;> simpa [pendingStep] using b
   case notify =>
+    by_cases hu : e.hooksUsable = false
+    · rw [if_pos hu] at h; cases h; rfl
+    rw [if_neg hu] at h
     obtain ⟨_, b, _⟩ := attempt_counts e s .notify
     split at h <;> cases h
     · rfl
@@ -899,6 +1009,21 @@ theorem steps_pending (op : Op) (c : Cfg) : pending (steps op c) 0 = 0 := by
   have hc : ∀ n u, pending (List.replicate n Kind.challenge) u = u := fun n u => pending_replicate n _ u (fun _ => rfl)
   have hn : ∀ n u, pending (List.replicate n Kind.notify) u = u := fun n u => pending_replicate n _ u (fun _ => rfl)
   have hr : ∀ n t u, pending (List.replicate n (Kind.req t)) u = u := fun n t u => pending_replicate n _ u (fun _ => rfl)
+  have hz : ∀ n u, pending (authzUpdates n) u = u := by
+    intro n
+    induction n with
+    | zero => intro u; simp [authzUpdates, pending]
+    | succ n ih => intro u; simp only [authzUpdates, pending_append, ih]; simp [pending, pendingStep]
+  have hus : ∀ u, pending (updateStatusSteps c) u = u := by
+    intro u
+    unfold updateStatusSteps
+    split
+    · simp only [pending_append, hz]; simp [pending, pendingStep]
+    · simp [pending]
+  have hid : ∀ u, pending (identityRenewSteps c) u = u := by
+    intro u
+    unfold identityRenewSteps
+    split <;> simp [pending, pendingStep, renewContextSteps, authorizeRenewSteps, storeRenewedSteps]
   have hx : ∀ u, pending (signX509Steps c) u = u := by
     intro u
     simp only [signX509Steps, pending_append, he, ha]
@@ -908,8 +1033,8 @@ theorem steps_pending (op : Op) (c : Cfg) : pending (steps op c) 0 = 0 := by
       storeRenewedSteps, revokeTokenSteps, revokeMTLSSteps, revokeSSHSteps, revokeTokenBase, revokeMTLSBase,
       renewSSHSteps, rekeySSHSteps, finalizeSteps, finalizePre, finalizePost, finalizeHandlerPre,
       createCertificateSteps, updateOrderSteps, pkiOperationSteps, signCSRSteps, validateChallengeSteps,
-      signSSHAddUserSteps, identitySteps, crlSteps, pending_append, he, ha, hc, hn, hr, hx] <;>
-    (try split) <;> (try simp only [pending_append, he, ha, hc, hn, hr, hx]) <;> simp [pending, pendingStep]
+      signSSHAddUserSteps, identitySteps, crlSteps, pending_append, he, ha, hc, hn, hr, hx, hus, hid] <;>
+    (try split) <;> (try simp only [pending_append, he, ha, hc, hn, hr, hx, hus, hid]) <;> simp [pending, pendingStep]
 
 /-- **every_certificate_recorded.** With a database configured, when the client is handed
     certificates — one, or the three of the SSH sign handler (user, add-user, identity) —
@@ -936,6 +1061,28 @@ theorem every_certificate_recorded (e : Env) (op : Op) (c : Cfg) (d : Durable) (
 
 /-! ### the step lists and the source -/
 
+/-- every signer of package `authority` (the list is re-derived from the source on every run)
+    stores what it signs before it returns, for any number of webhooks -/
+theorem signers_store (c : Cfg) : ∀ p ∈ signerTable c, pending p.2 0 = 0 := by
+  have he : ∀ n u, pending (List.replicate n Kind.enrich) u = u := fun n u => pending_replicate n _ u (fun _ => rfl)
+  have ha : ∀ n u, pending (List.replicate n Kind.authorize) u = u := fun n u => pending_replicate n _ u (fun _ => rfl)
+  intro p hp
+  simp only [signerTable, List.mem_cons, List.mem_nil_iff, or_false] at hp
+  rcases hp with rfl | rfl | rfl | rfl | rfl | rfl <;>
+    simp only [signX509Steps, signSSHSteps, renewContextSteps, authorizeRenewSteps, storeRenewedSteps, renewSSHSteps,
+      rekeySSHSteps, signSSHAddUserSteps, pending_append, he, ha] <;> simp [pending, pendingStep]
+
+/-- every SCEP message type that carries a certificate request has its challenge validated
+    (both lists are re-derived from the source on every run) -/
+theorem challenge_covers_csr_types : csrTypes.all (fun t => challengedTypes.contains t) = true := by decide
+
+/-- every server-side caller of an issuing entry point (re-derived from the source on every
+    run) is modelled: the entry point's segment is part of the operation's step list -/
+theorem callers_modelled :
+    (callerTable { e := 1, a := 1, identity := true }).all
+      (fun p => p.2.2.2.isSublist (steps p.2.2.1 { e := 1, a := 1, identity := true })) = true := by decide
+
+
 /-- The three request paths through `Revoke` (token, mTLS, SSH) are sub-sequences of the
     function body in source order (which the harness re-derives from the Go source on every
     run and the driver compares with `revokeSourceOrder`). -/
@@ -954,6 +1101,9 @@ def wh (e a : Nat) : Cfg := { e := e, a := a }
 example : let r := runOp noDB .sign (wh 1 1) {}
     client .sign r = .certificate ∧ r.1.d.certs = 0 ∧ r.1.log.length = 3 := by decide
 example : client .revoke (runOp noDB .revoke (wh 0 0) {}) = .error := by decide
+/-- without a database the used-token set does not survive a restart (C02's subject, outside
+    C17's "when a database is configured"): the same token is accepted again -/
+example : client .sign (runOp noDB .sign (wh 0 0) (restart false (runOp noDB .sign (wh 0 0) {}).1.d)) = .certificate := by decide
 
 example : client .sign (runOp allOk .sign (wh 2 1) {}) = .certificate := by decide
 example : client .revoke (runOp allOk .revoke (wh 0 0) {}) = .revoked := by decide
@@ -982,6 +1132,10 @@ example : let r := runOp { allOk with f := fun n => if n = 6 then .error else .o
 example : let r := runOp allOk .sshSignFull (wh 1 1) {}
     client .sshSignFull r = .certificate ∧ r.1.made = 3 ∧ r.1.d.certs = 3 ∧ r.1.d.datas = 1 := by decide
 
+
+/-- unusable webhook definitions: refused without a single external webhook call -/
+example : let r := runOp { allOk with hooksUsable := false } .sign (wh 1 1) {}
+    client .sign r = .error ∧ r.1.log = [⟨.useToken, .ok⟩] := by decide
 
 /-! SCEP -/
 def scep2 : Cfg := { e := 0, a := 0, ch := 2, n := 1 }
